@@ -9,7 +9,7 @@ task = {'id', 'name', 'parent': idx|None, 'estimate', 'spent', 'resource', 'mile
 import vf.env  # noqa: F401
 from vf.env import REAL, td, day
 from vf import calast
-from pjplan import Task, WBS, IResource, ForwardScheduler, BackwardScheduler
+from pjplan import Task, WBS, IResource, Resource, ForwardScheduler, BackwardScheduler
 
 RESKEY = {None: '<none>'}
 
@@ -22,14 +22,13 @@ class BudgetExceeded(BaseException):
     """more capacity queries than the documented horizons allow (C14 bounded progress)"""
 
 
-class ProbeResource(IResource):
-    """IResource at the public extension point: delegates to a real pjplan calendar and logs every
-    capacity query and every reservation in order (DESIGN 2.3)."""
+class ProbeResource(Resource):
+    """The public extension point: a subclass of pjplan's own Resource (so Resource's code answers, through its public
+    `calendar` attribute) that logs every capacity query and every reservation in order (DESIGN 2.3)."""
 
     def __init__(self, name, ast, shared):
-        super().__init__(name)
+        super().__init__(name, calast.build(ast))
         self.ast = ast
-        self.calendar = calast.build(ast)
         self.shared = shared          # dict: 'events' list, 'queries' int, 'budget' int
         self.booked = {}
 
@@ -38,7 +37,7 @@ class ProbeResource(IResource):
         sh['queries'] += 1
         if sh['queries'] > sh['budget']:
             raise BudgetExceeded(sh['queries'])
-        u = self.calendar.get_available_units(date)
+        u = super().get_available_units(date, task)
         u = 0 if u is None else u
         caps = sh.get('task_caps')
         if caps and task is not None:
@@ -219,6 +218,10 @@ def gen_case(rnd, direction=None, n_max=12, klass='wellformed', fixed=None, exte
         for i, t in enumerate(tasks):
             if not ch[i] and t['milestone'] and rnd.random() < 0.25:
                 t['start'] = base + td(days=rnd.randint(-20, 20))      # stale date on a milestone: must be replaced
+                if rnd.random() < 0.5:
+                    # a plan reloaded with the dates of an earlier run: start and end (in the past, or the run is refused)
+                    t['start'] = base - td(days=rnd.randint(15, 45))
+                    t['end'] = t['start']
             elif fixed and not ch[i] and not t['milestone'] and t['start'] is None and rnd.random() < 0.04:
                 t['end'] = base - td(days=rnd.randint(20, 40))         # completed, only the end date recorded
     if bwd_fixed and direction == 'bwd' and rnd.random() < 0.4:
@@ -274,7 +277,8 @@ def gen_case(rnd, direction=None, n_max=12, klass='wellformed', fixed=None, exte
         now = REAL(2020, 1, 1)
     return {'kind': 'sched', 'tasks': tasks, 'links': links, 'externals': exts, 'resources': resources, 'dir': direction,
             'date': base, 'now': now, 'balance': rnd.random() < 0.7, 'default_estimate': rnd.choice([0, 0, 4, 1.5]),
-            'class': klass, 'decimal': decimal, 'assemble': rnd.choice(['attached', 'attached', 'detached-first'])}
+            'class': klass, 'decimal': decimal, 'assemble': rnd.choice(['attached', 'attached', 'detached-first']),
+            'wbs_attrs': ({'title': rnd.choice(['Plan A', '', None]), 'owner': 7} if rnd.random() < 0.2 else {})}
 
 
 # ------------------------------------------------------------------------------------------
@@ -288,6 +292,8 @@ def build(case, budget=None, log_queries=False):
     """returns Built with .wbs, .tasks (by index), .externals, .resources (list of probes), .shared"""
     b = Built()
     w = WBS()
+    for k_, v_ in (case.get('wbs_attrs') or {}).items():
+        setattr(w, k_, v_)       # attributes the user keeps on the plan itself
     objs = []
     for t in case['tasks']:
         kw = dict(t.get('attrs') or {})
